@@ -28,6 +28,7 @@ impl Display for JpQuery {
 }
 /// Enum representing different types of segments in a JSONPath query.
 #[derive(Debug, Clone, PartialEq)]
+#[cfg_attr(kani, repr(u8))]
 pub enum Segment {
     /// Represents a descendant segment.
     Descendant(Box<Segment>),
@@ -58,6 +59,7 @@ impl Display for Segment {
 }
 /// Enum representing different types of selectors in a JSONPath query.
 #[derive(Debug, Clone, PartialEq)]
+#[cfg_attr(kani, repr(u8))]
 pub enum Selector {
     /// Represents a name selector.
     Name(String),
@@ -94,6 +96,7 @@ impl Display for Selector {
 }
 /// Enum representing different types of filters in a JSONPath query.
 #[derive(Debug, Clone, PartialEq)]
+#[cfg_attr(kani, repr(u8))]
 pub enum Filter {
     /// Represents a logical OR filter.
     Or(Vec<Filter>),
@@ -123,6 +126,7 @@ impl Display for Filter {
 
 /// Enum representing different types of atomic filters in a JSONPath query.
 #[derive(Debug, Clone, PartialEq)]
+#[cfg_attr(kani, repr(u8))]
 pub enum FilterAtom {
     /// Represents a nested filter with an optional NOT flag.
     Filter { expr: Box<Filter>, not: bool },
@@ -175,6 +179,7 @@ impl Display for FilterAtom {
 }
 /// Enum representing different types of comparisons in a JSONPath query.
 #[derive(Debug, Clone, PartialEq)]
+#[cfg_attr(kani, repr(u8))]
 pub enum Comparison {
     /// Represents an equality comparison.
     Eq(Comparable, Comparable),
@@ -233,6 +238,7 @@ impl Display for Comparison {
 
 /// Enum representing different types of comparable values in a JSONPath query.
 #[derive(Debug, Clone, PartialEq)]
+#[cfg_attr(kani, repr(u8))]
 pub enum Comparable {
     /// Represents a literal value.
     Literal(Literal),
@@ -254,6 +260,7 @@ impl Display for Comparable {
 
 /// Enum representing different types of singular queries in a JSONPath query.
 #[derive(Debug, Clone, PartialEq)]
+#[cfg_attr(kani, repr(u8))]
 pub enum SingularQuery {
     /// Represents a current node query.
     Current(Vec<SingularQuerySegment>),
@@ -280,6 +287,7 @@ impl Display for SingularQuery {
 
 /// Enum representing different types of singular query segments in a JSONPath query.
 #[derive(Debug, Clone, PartialEq)]
+#[cfg_attr(kani, repr(u8))]
 pub enum SingularQuerySegment {
     /// Represents an index segment.
     Index(i64),
@@ -298,6 +306,7 @@ impl Display for SingularQuerySegment {
 
 /// Enum representing different types of tests in a JSONPath query.
 #[derive(Debug, Clone, PartialEq)]
+#[cfg_attr(kani, repr(u8))]
 pub enum Test {
     /// Represents a relative query.
     RelQuery(Vec<Segment>),
@@ -340,6 +349,7 @@ impl Display for Test {
 
 /// Enum representing different types of test functions in a JSONPath query.
 #[derive(Debug, Clone, PartialEq)]
+#[cfg_attr(kani, repr(u8))]
 pub enum TestFunction {
     /// Represents a custom function.
     Custom(String, Vec<FnArg>),
@@ -427,6 +437,7 @@ impl Display for TestFunction {
 
 /// Enum representing different types of function arguments in a JSONPath query.
 #[derive(Debug, Clone, PartialEq)]
+#[cfg_attr(kani, repr(u8))]
 pub enum FnArg {
     /// Represents a literal argument.
     Literal(Literal),
@@ -457,6 +468,7 @@ impl Display for FnArg {
 
 /// Enum representing different types of literal values in a JSONPath query.
 #[derive(Debug, Clone, PartialEq)]
+#[cfg_attr(kani, repr(u8))]
 pub enum Literal {
     /// Represents an integer literal.
     Int(i64),
